@@ -187,6 +187,28 @@ func c14R3(c *Ctx) {
 				return isC && k <= 18 && a.L.IsCallTo("len")
 			})
 		}
+		if okAcc {
+			// the limit must account for the digit that is added: acc <= (max - digit)/10, not acc <= max/10
+			var digit ssa.Value
+			for _, ref := range *s.mul.Referrers() {
+				if add, ok := ref.(*ssa.BinOp); ok && add.Op == token.ADD {
+					if add.X == ssa.Value(s.mul) {
+						digit = add.Y
+					} else {
+						digit = add.X
+					}
+				}
+			}
+			byLen := d.Implies(func(a *Atom) bool {
+				if a.Rel != "<" && a.Rel != "<=" {
+					return false
+				}
+				k, isC := a.R.ConstIntVal()
+				return isC && k <= 18 && a.L.IsCallTo("len")
+			})
+			c.Check(byLen || accumulationGuardMentionsDigit(p, d, s.acc, digit), name, p.InstrPos(s.mul), "limit-accounts-for-digit", "the limit the accumulator is compared with depends on the digit being added",
+				"the accumulator is compared with a limit that does not take the digit being added into account (acc > max/10 instead of acc > (max-digit)/10): on the boundary the last digit overflows, \"9223372036854775808\" reads as MinInt instead of yielding an error")
+		}
 		c.Check(okAcc, name, p.InstrPos(s.mul), "accumulation-guarded", "the accumulator is compared against a limit before it is multiplied",
 			"acc*10+digit is computed without any comparison on the accumulator or bound on the number of digits: a long digit string wraps around silently and is accepted as a different number (\"18446744073709551617\" reads as 1) instead of yielding an error")
 		if seenFn[fn] {
